@@ -270,7 +270,10 @@ class Normalizer:
         if k == "slice":
             return patom(self.index(n))
         if k == "item":
-            return patom(("item", self.canon(n[1]), n[2]))
+            c = self.canon(n[1])
+            if isinstance(c, tuple) and c and c[0] == "tuple" and isinstance(n[2], int) and 0 <= n[2] < len(c) - 1:
+                return thaw(c[1 + n[2]])
+            return patom(("item", c, n[2]))
         if k in ("tuple", "list"):
             return patom(("tuple",) + tuple(self.canon(x) for x in n[1]))
         if k == "set":
@@ -594,6 +597,8 @@ class Normalizer:
             return self.poly(args[0])
         if fname == "equinox.error_if" and len(args) >= 1 and self.erase_error_if:
             return self.poly(args[0])
+        if fname == "typing.cast" and len(args) == 2 and not kw:
+            return self.poly(args[1])
         if fname == "jax.numpy.finfo" or fname == "numpy.finfo":
             return patom(("call", "finfo", tuple(self.canon(a) for a in args), ()))
         # generic call: canonical callee, kw/positional equivalence for known signatures
